@@ -265,7 +265,9 @@ impl<TS: TimeSource> BeaconSerializer<TS> {
             if let Some(found) = data[start_pos..].find(&end) {
                 let end_pos = start_pos + found;
                 peers.append(&mut self.peerlist_decode(&data[start_pos..end_pos], ttl_hours));
-                pos = start_pos
+                // continue right behind the start of this candidate: a begin marker may overlap with a
+                // partial one in front of it
+                pos += 1
             } else {
                 break;
             }
